@@ -417,11 +417,7 @@ def fp_oracle(prog, job, out, log=print):
     lev = np.stack([domains[nf + j][mat[:, nf + j]].astype(np.int64) for j in range(len(digits))], axis=1)
     ul, inv_l = np.unique(lev, axis=0, return_inverse=True)
     t1 = time.time()
-    import multiprocessing
-    chunks = [ul[i:i + 50000] for i in range(0, len(ul), 50000)]
-    with multiprocessing.Pool(workers) as pool:
-        parts = pool.map(_spec_worker, chunks)
-    sc_spec = np.array([x for p in parts for x in p], dtype=np.int64)
+    sc_spec = spec_scores_v4(ul, workers, log)
     log('    specification scores for %d effective classes in %.1fs' % (len(ul), time.time() - t1))
     got = sc_impl[inv_f.reshape(-1)]
     want = sc_spec[inv_l.reshape(-1)]
@@ -578,3 +574,43 @@ def engine_witness(ex, viol, solver):
         return st, m
     finally:
         s.close()
+
+
+V4_RADIX = [4, 3, 3, 2, 2, 3, 3, 3, 3, 4, 4, 3, 3, 3, 3]   # levels in cvss4_spec.ORACLE_ORDER
+
+
+def spec_scores_v4(levels, workers, log):
+    """exact specification score x 10 per row of effective levels; the full table (15,116,544
+    classes) is computed once per oracle data version and cached under /verif/spec/cache"""
+    import numpy as np
+    import cvss4_spec
+    import multiprocessing
+    cdir = os.path.join(engine.VERIF, 'spec', 'cache')
+    path = os.path.join(cdir, 'v4_scores_%s.npy' % cvss4_spec.DATA['sha256'][:16])
+    n = 1
+    for r in V4_RADIX:
+        n *= r
+    idx = np.zeros(len(levels), dtype=np.int64)
+    ok = np.ones(len(levels), dtype=bool)
+    for j, r in enumerate(V4_RADIX):
+        col = levels[:, j]
+        ok &= (col >= 0) & (col < r)
+        idx = idx * r + np.clip(col, 0, r - 1)
+    if os.path.exists(path):
+        tab = np.load(path)
+    else:
+        allrows = np.empty((n, len(V4_RADIX)), dtype=np.int64)
+        rest = np.arange(n, dtype=np.int64)
+        for j in range(len(V4_RADIX) - 1, -1, -1):
+            allrows[:, j] = rest % V4_RADIX[j]
+            rest //= V4_RADIX[j]
+        chunks = [allrows[i:i + 50000] for i in range(0, n, 50000)]
+        with multiprocessing.Pool(workers) as pool:
+            parts = pool.map(_spec_worker, chunks)
+        tab = np.array([x for p in parts for x in p], dtype=np.int16)
+        os.makedirs(cdir, exist_ok=True)
+        np.save(path, tab)
+        log('    (exact specification table of %d classes computed and cached)' % n)
+    out = tab[idx].astype(np.int64)
+    out[~ok] = -555
+    return out
